@@ -570,10 +570,111 @@ func (l *loopInfo) classScaling() (string, string, bool) {
 }
 
 // positiveOnEntry: v = math.Abs(y) computed where `y != 0` holds, or v has a dominating v > 0 test.
+var loopCtx *Ctx
+
+// nonZeroAt: block b is reached only after `y != 0` held.
+func nonZeroAt(y ssa.Value, b *ssa.BasicBlock) bool {
+	test := func(cond ssa.Value) (int, bool) {
+		bo, ok := cond.(*ssa.BinOp)
+		if !ok || bo.X != y {
+			return 0, false
+		}
+		if k, ok := bo.Y.(*ssa.Const); !ok || k.Value == nil || constant.Sign(k.Value) != 0 {
+			return 0, false
+		}
+		switch bo.Op {
+		case token.NEQ:
+			return 0, true
+		case token.EQL:
+			return 1, true
+		}
+		return 0, false
+	}
+	if domGuard(b, test) {
+		return true
+	}
+	// a && b short-circuit: the block is the true successor of a phi-of-bools condition whose
+	// only non-constant edge is the test
+	for d := b; d != nil; d = d.Idom() {
+		if len(d.Preds) != 1 {
+			continue
+		}
+		pr := d.Preds[0]
+		iff, ok := pr.Instrs[len(pr.Instrs)-1].(*ssa.If)
+		if !ok || pr.Succs[0] != d {
+			continue
+		}
+		phi, ok := iff.Cond.(*ssa.Phi)
+		if !ok {
+			continue
+		}
+		for i, ed := range phi.Edges {
+			if k, isK := ed.(*ssa.Const); isK && k.Value != nil && k.Value.Kind() == constant.Bool && !constant.BoolVal(k.Value) {
+				continue // false edges cannot lead to the true successor
+			}
+			// a non-constant edge: the test itself, evaluated in its predecessor, or the predecessor
+			// is reached only after the test held
+			if succ, ok := test(ed); ok && succ == 0 {
+				continue
+			}
+			if domGuard(phi.Block().Preds[i], test) {
+				continue
+			}
+			return false
+		}
+		return true
+	}
+	return false
+}
+
 func positiveOnEntry(v ssa.Value) bool {
+	if p, isParam := v.(*ssa.Parameter); isParam && loopCtx != nil {
+		// a helper that is only ever called statically: the property must hold at every call
+		f := p.Parent()
+		idx := -1
+		for i, q := range f.Params {
+			if q == p {
+				idx = i
+			}
+		}
+		sites, ok := loopCtx.staticCallers(f)
+		if !ok || len(sites) == 0 || idx < 0 {
+			return false
+		}
+		for _, s := range sites {
+			args := s.Common().Args
+			if idx >= len(args) || !positiveOnEntry(args[idx]) {
+				return false
+			}
+		}
+		return true
+	}
 	call, ok := v.(*ssa.Call)
 	if ok && isPkgFunc(call.Call.StaticCallee(), "math", "Abs") {
 		y := call.Call.Args[0]
+		if p, isParam := y.(*ssa.Parameter); isParam && loopCtx != nil {
+			// math.Abs of a parameter: non-zero when every (static) caller has tested its
+			// argument against zero
+			f := p.Parent()
+			idx := -1
+			for i, q := range f.Params {
+				if q == p {
+					idx = i
+				}
+			}
+			if sites, okS := loopCtx.staticCallers(f); okS && len(sites) > 0 && idx >= 0 {
+				all := true
+				for _, s := range sites {
+					args := s.Common().Args
+					if idx >= len(args) || !nonZeroAt(args[idx], s.Block()) {
+						all = false
+					}
+				}
+				if all {
+					return true
+				}
+			}
+		}
 		return domGuard(call.Block(), func(cond ssa.Value) (int, bool) {
 			bo, ok := cond.(*ssa.BinOp)
 			if !ok || bo.X != y {
@@ -608,8 +709,8 @@ func positiveOnEntry(v ssa.Value) bool {
 
 // loopTableX: reviewed loops, keyed by function and shape.
 var loopTableX = map[string]string{
-	"jtypes.Resolve:v=v.Elem()":                "each iteration replaces v by v.Elem(): the pointer/interface chain of a value built from JSON (or any acyclic Go value) is finite; a self-referential interface value is outside the property's inputs (assumption)",
-	"jxpath.FormatNumber:for x > c { x /= k }": "runs after the multiplying loop on the same variable: x is finite unless that loop overflowed, and it can only overflow when its bound exceeded MaxFloat64/10, in which case this loop's bound (ten times larger) is +Inf and the test is false at once; a finite positive x divided by 10 falls below any positive bound",
+	"jtypes:v=v.Elem()":           "each iteration replaces v by v.Elem(): the pointer/interface chain of a value built from JSON (or any acyclic Go value) is finite; a self-referential interface value is outside the property's inputs (assumption)",
+	"jxpath:for x > c { x /= k }": "runs after the multiplying loop on the same variable: x is finite unless that loop overflowed, and it can only overflow when its bound exceeded MaxFloat64/10, in which case this loop's bound (ten times larger) is +Inf and the test is false at once; a finite positive x divided by 10 falls below any positive bound",
 }
 
 func loopShapeKey(l *loopInfo) string {
@@ -930,6 +1031,7 @@ func evalPredicateOnConst(f *ssa.Function, arg int64, bound map[*ssa.FreeVar]int
 
 // runLOOP classifies every loop of the given functions.
 func runLOOP(c *Ctx, r *Result, rule string, fns []*ssa.Function, reach *Reach) map[string]int {
+	loopCtx = c
 	cfg := loopConfig(c)
 	counts := map[string]int{}
 	sortFns(fns)
@@ -960,7 +1062,7 @@ func runLOOP(c *Ctx, r *Result, rule string, fns []*ssa.Function, reach *Reach) 
 			} else if why, bad, ok := l.classScaling(); ok {
 				class, o.Verdict, o.Reason = "M", Discharged, why
 			} else if bad == "dividing" {
-				k := shortFn(f) + ":for x > c { x /= k }"
+				k := pkgNameOf(f) + ":for x > c { x /= k }"
 				if arg, has := loopTableX[k]; has {
 					class, o.Verdict, o.Reason = "X", Exception, "reviewed ("+k+"): "+arg
 				} else {
@@ -968,8 +1070,10 @@ func runLOOP(c *Ctx, r *Result, rule string, fns []*ssa.Function, reach *Reach) 
 				}
 			} else if bad != "" {
 				class, o.Verdict, o.Reason = "M!", Finding, bad
-			} else if arg, has := loopTableX[shortFn(f)+":"+xShape(l)]; has {
-				class, o.Verdict, o.Reason = "X", Exception, "reviewed ("+shortFn(f)+"): "+arg
+			} else if arg, has := loopTableX[pkgNameOf(f)+":"+xShape(l)]; has {
+				class, o.Verdict, o.Reason = "X", Exception, "reviewed ("+pkgNameOf(f)+":"+xShape(l)+"): "+arg
+			} else if why, ok := l.classChain(); ok {
+				class, o.Verdict, o.Reason = "C", Exception, why
 			} else {
 				class, o.Verdict, o.Reason = "?", Finding, "loop with no recognised variant (not a range, a counted loop towards an invariant bound, a shrinking-suffix consumer, a token/rune consuming loop, or a reviewed entry): it may not terminate"
 			}
@@ -981,6 +1085,84 @@ func runLOOP(c *Ctx, r *Result, rule string, fns []*ssa.Function, reach *Reach) 
 		}
 	}
 	return counts
+}
+
+func pkgNameOf(f *ssa.Function) string {
+	if p := fnPkg(f); p != nil {
+		return p.Name()
+	}
+	return ""
+}
+
+// acyclicLinks: pointer fields that form finite chains, with the reason.
+var acyclicLinks = map[string]string{
+	"jsonata.environment.parent": "a child environment is created by newEnvironment from an already existing parent and the link is never reassigned (SCOPE), so parent chains are finite",
+}
+
+// classChain (C): the loop walks a pointer chain — its variable is φ(init, φ.link) and it stops
+// at nil — over a link field known to form finite chains.
+func (l *loopInfo) classChain() (string, bool) {
+	for _, ins := range l.header.Instrs {
+		phi, ok := ins.(*ssa.Phi)
+		if !ok {
+			break
+		}
+		pt, ok := phi.Type().Underlying().(*types.Pointer)
+		if !ok {
+			continue
+		}
+		_, inside := l.phiEdges(phi)
+		if len(inside) == 0 {
+			continue
+		}
+		field := ""
+		all := true
+		for _, e := range inside {
+			ld, ok := e.(*ssa.UnOp)
+			if !ok || ld.Op != token.MUL {
+				all = false
+				break
+			}
+			fa, ok := ld.X.(*ssa.FieldAddr)
+			if !ok || fa.X != ssa.Value(phi) {
+				all = false
+				break
+			}
+			field = types.TypeString(pt.Elem(), func(p *types.Package) string { return p.Name() }) + "." + fieldName(fa.X.Type(), fa.Field)
+		}
+		if !all || field == "" {
+			continue
+		}
+		why, known := acyclicLinks[field]
+		if !known {
+			continue
+		}
+		// some exit tests the variable against nil on every cycle
+		for _, iff := range l.exits() {
+			bo, ok := iff.Cond.(*ssa.BinOp)
+			if !ok || (bo.Op != token.EQL && bo.Op != token.NEQ) {
+				continue
+			}
+			isLink := func(v ssa.Value) bool {
+				if v == ssa.Value(phi) {
+					return true
+				}
+				ld, ok := v.(*ssa.UnOp)
+				if !ok || ld.Op != token.MUL {
+					return false
+				}
+				fa, ok := ld.X.(*ssa.FieldAddr)
+				return ok && fa.X == ssa.Value(phi) && types.TypeString(pt.Elem(), func(p *types.Package) string { return p.Name() })+"."+fieldName(fa.X.Type(), fa.Field) == field
+			}
+			if (isLink(bo.X) && isNilConst(bo.Y)) || (isLink(bo.Y) && isNilConst(bo.X)) {
+				tb := iff.Block()
+				if l.everyCycleHits(func(b *ssa.BasicBlock) bool { return b == tb }) {
+					return "walks the chain " + field + " until nil: " + why, true
+				}
+			}
+		}
+	}
+	return "", false
 }
 
 func xShape(l *loopInfo) string {
@@ -1200,31 +1382,39 @@ func eofHasNoBindingPower(c *Ctx) bool {
 // recursionTable: anchor function -> the structural descent that bounds the recursion of the
 // SCC containing it.
 var recursionTable = map[string]string{
-	"jsonata.eval":                           "AST depth: every eval* function recurses on child nodes of its node; callables re-enter eval on a lambda body / partial arguments, bounded by the property's exclusion of unboundedly recursive user functions",
-	"jsonata.flattenArray":                   "value depth: recurses on the elements of an array value",
-	"jsonata.recurseDescendents":             "value depth: recurses on the members of a container value",
-	"jsonata.evalName":                       "value depth: evalNameArray calls evalName on array elements",
+	"jsonata.eval": "AST depth: every eval* function recurses on child nodes of its node; callables re-enter eval on a lambda body / partial arguments, bounded by the property's exclusion of unboundedly recursive user functions",
+	// (auto) jsonata.flattenArray
+	// (auto) jsonata.recurseDescendents
+	// (auto) jsonata.evalName
 	"(*jsonata.environment).lookup":          "scope chain: recurses on the parent environment, a finite acyclic chain (a child is created from an existing parent)",
+	"jsonata.evalPath":                       "AST depth (same SCC as jsonata.eval)",
+	"jsonata.evalFunctionCall":               "AST depth (same SCC as jsonata.eval)",
+	"jsonata.processOptionalArg":             "parameter descriptor (same SCC as processGoCallableArg)",
+	"jsonata.processVariantArg":              "parameter descriptor (same SCC as processGoCallableArg)",
+	"(*jparse.PathNode).optimize":            "AST depth (same SCC as the other optimize methods)",
+	"(*jparse.BlockNode).optimize":           "AST depth (same SCC as the other optimize methods)",
+	"(*jparse.parser).parseFunctionCall":     "token stream (same SCC as parseExpression)",
+	"jparse.parseBlock":                      "token stream (same SCC as parseExpression)",
 	"jsonata.newGoCallableParam":             "type structure: recurses on the element type of an Optional / the alternatives of a Variant",
 	"jsonata.processGoCallableArg":           "parameter descriptor: recurses on optType / varTypes of the descriptor, a finite tree built by newGoCallableParam",
 	"jsonata.newMatchCallable":               "match list: recurses on the tail of the matches slice",
 	"(*jsonata.lambdaCallable).validArgType": "signature: recurses on SubParams of the parameter, a finite tree built by the parser",
-	"jlib.Boolean":                           "value depth: recurses on array elements",
-	"jlib.mergeSort":                         "slice halving: recurses on values[:n/2] and values[n/2:] with n >= 2",
-	"jlib.callMatchFunc":                     "match chain: each step follows the `next` callable of the previous match object; the chain built by newMatchCallable is finite",
-	"jlib.TypeOf":                            "value depth",
-	"jlib.keys":                              "value depth: recurses on array elements",
-	"jlib.keysArray":                         "value depth: recurses on array elements",
-	"jlib.Spread":                            "value depth: recurses on array elements",
-	"jlib.spreadArray":                       "value depth: recurses on array elements",
-	"jxpath.gcd":                             "Euclid: gcd(b, a%b) with b != 0 strictly decreases |b|",
-	"jparse.unescape":                        "string suffix: recurses on the rest of the string after at least one consumed escape",
-	"jparse.parseParams":                     "string: recurses on the bracketed substring, strictly shorter than its argument",
-	"(*jparse.parser).parseExpression":       "token stream: every recursive entry is preceded by the consumption of a token (advance in parseExpression); the lexer makes progress on every token (LEX)",
-	"(jparse.Param).String":                  "signature tree: recurses on SubParams",
-	"(*jparse.ArrayNode).optimize":           "AST depth: optimize recurses on the child nodes of its receiver (a finite tree built by the parser)",
-	"(jparse.PathNode).String":               "AST depth: String recurses on child nodes",
-	"(*jparse.PathNode).String":              "AST depth: String recurses on child nodes",
+	// (auto) jlib.Boolean
+	"jlib.mergeSort":     "slice halving: recurses on values[:n/2] and values[n/2:] with n >= 2",
+	"jlib.callMatchFunc": "match chain: each step follows the `next` callable of the previous match object; the chain built by newMatchCallable is finite",
+	// (auto) jlib.TypeOf
+	// (auto) jlib.keys
+	// (auto) jlib.keysArray
+	// (auto) jlib.Spread
+	// (auto) jlib.spreadArray
+	"jxpath.gcd":                       "Euclid: gcd(b, a%b) with b != 0 strictly decreases |b|",
+	"jparse.unescape":                  "string suffix: recurses on the rest of the string after at least one consumed escape",
+	"jparse.parseParams":               "string: recurses on the bracketed substring, strictly shorter than its argument",
+	"(*jparse.parser).parseExpression": "token stream: every recursive entry is preceded by the consumption of a token (advance in parseExpression); the lexer makes progress on every token (LEX)",
+	"(jparse.Param).String":            "signature tree: recurses on SubParams",
+	"(*jparse.ArrayNode).optimize":     "AST depth: optimize recurses on the child nodes of its receiver (a finite tree built by the parser)",
+	"(jparse.PathNode).String":         "AST depth: String recurses on child nodes",
+	"(*jparse.PathNode).String":        "AST depth: String recurses on child nodes",
 }
 
 func sccs(g *MCG, nodes []*ssa.Function) [][]*ssa.Function {
@@ -1316,10 +1506,136 @@ func runRecursion(c *Ctx, r *Result, rule string, reach *Reach) int {
 		}
 		if anchor != "" {
 			o.Verdict, o.Reason = Exception, fmt.Sprintf("reviewed recursion %v: %s", show, arg)
+		} else if why := autoValueDescent(c, comp); why != "" {
+			o.Verdict, o.Reason = Discharged, fmt.Sprintf("recursion %v descends the value: %s", show, why)
 		} else {
 			o.Verdict, o.Reason = Finding, fmt.Sprintf("recursive functions %v have no reviewed structural descent: the recursion may not terminate", show)
 		}
 		r.Add(o)
 	}
 	return n
+}
+
+// autoValueDescent recognises recursion on the depth of a data value without a table entry:
+// every function of the SCC has exactly one reflect.Value parameter; on every call between
+// members the argument for it is the caller's own parameter (possibly resolved) or a strict
+// sub-part of it (Index, Field*, MapIndex, Elem); and no cycle consists only of calls that pass
+// the parameter on unchanged. Values are finite and acyclic (ACYC), so the recursion ends.
+func autoValueDescent(c *Ctx, comp []*ssa.Function) string {
+	in := map[*ssa.Function]bool{}
+	dataParam := map[*ssa.Function]*ssa.Parameter{}
+	for _, f := range comp {
+		in[f] = true
+		var dp *ssa.Parameter
+		for _, p := range f.Params {
+			if isReflectValue(p.Type()) {
+				if dp != nil {
+					return ""
+				}
+				dp = p
+			}
+		}
+		if dp == nil {
+			return ""
+		}
+		dataParam[f] = dp
+	}
+	var deriv func(v ssa.Value, f *ssa.Function, seen map[ssa.Value]bool) string // "same" | "sub" | ""
+	deriv = func(v ssa.Value, f *ssa.Function, seen map[ssa.Value]bool) string {
+		if seen[v] {
+			return "sub" // neutral element for the phi meet below
+		}
+		seen[v] = true
+		switch x := v.(type) {
+		case *ssa.Parameter:
+			if x == dataParam[f] {
+				return "same"
+			}
+		case *ssa.Call:
+			name := staticName(x)
+			switch name {
+			case "reflect.Value.Index", "reflect.Value.Field", "reflect.Value.FieldByName", "reflect.Value.FieldByIndex", "reflect.Value.MapIndex", "reflect.Value.Elem":
+				if d := deriv(x.Call.Args[0], f, seen); d != "" {
+					return "sub"
+				}
+				return ""
+			}
+			if callee := x.Call.StaticCallee(); callee != nil && shortFn(callee) == "jtypes.Resolve" {
+				return deriv(x.Call.Args[0], f, seen)
+			}
+		case *ssa.Phi:
+			res := "sub"
+			for _, ed := range x.Edges {
+				switch deriv(ed, f, seen) {
+				case "":
+					return ""
+				case "same":
+					res = "same"
+				}
+			}
+			return res
+		}
+		return ""
+	}
+	sameEdges := map[*ssa.Function][]*ssa.Function{}
+	edges, subs := 0, 0
+	for _, f := range comp {
+		for _, e := range c.G.Out[f] {
+			if !in[e.Callee] || e.Site == nil {
+				if in[e.Callee] {
+					return "" // an edge without a call site (callback): arguments unknown
+				}
+				continue
+			}
+			if e.Site.Parent() != f {
+				continue
+			}
+			args := e.Site.Common().Args
+			off := 0
+			if e.Site.Common().IsInvoke() {
+				off = 1
+			}
+			dp := dataParam[e.Callee]
+			idx := -1
+			for i, p := range e.Callee.Params {
+				if p == dp {
+					idx = i - off
+				}
+			}
+			if idx < 0 || idx >= len(args) {
+				return ""
+			}
+			edges++
+			switch deriv(args[idx], f, map[ssa.Value]bool{}) {
+			case "sub":
+				subs++
+			case "same":
+				sameEdges[f] = append(sameEdges[f], e.Callee)
+			default:
+				return ""
+			}
+		}
+	}
+	if edges == 0 || subs == 0 {
+		return ""
+	}
+	// the pass-through edges alone must not form a cycle
+	state := map[*ssa.Function]int{}
+	var cyc func(f *ssa.Function) bool
+	cyc = func(f *ssa.Function) bool {
+		state[f] = 1
+		for _, g := range sameEdges[f] {
+			if state[g] == 1 || (state[g] == 0 && cyc(g)) {
+				return true
+			}
+		}
+		state[f] = 2
+		return false
+	}
+	for _, f := range comp {
+		if state[f] == 0 && cyc(f) {
+			return ""
+		}
+	}
+	return fmt.Sprintf("each member has one reflect.Value parameter; of the %d calls between members %d pass a strict sub-part (Index/Field/MapIndex/Elem) of it and the rest pass it on unchanged without forming a cycle", edges, subs)
 }
